@@ -346,7 +346,6 @@ package http
 //@   callee Counter.Inc()
 //@     requires gok
 //@     requires gkey == gname
-//@     requires gcnt
 //@     pure
 //@   callee Read(b) (n, e)
 //@     requires false
